@@ -221,7 +221,7 @@ pos_arm!(c04_inv_override, {
     inverse(w)
 });
 
-/// @harness id=c04_inv_sibling_first props=C04,C08 tier=thorough unwind=24 mem=12 cap=1800 gates=worlds
+/// @harness id=c04_inv_sibling_first props=C04,C08 tier=quick unwind=24 mem=12 cap=1800 gates=worlds
 /// C1 defines f; the sibling module M (same directory) uses the inherited f and is registered BEFORE U, which
 /// overrides f locally and uses its own.
 pos_arm!(c04_inv_sibling_first, {
